@@ -49,7 +49,7 @@ ROUTINE = {1: "iterate_children", 2: "__len__", 3: "first_child", 4: "last_child
            13: "iterate_descendants", 14: "last_descendant", 15: "iterate_ancestors", 16: "depth",
            17: "iterate_following", 18: "iterate_preceding", 19: "full_text", 20: "traverse_bf_ltr_ttb",
            21: "traverse_df_ltr_btt", 22: "traverse_df_ltr_ttb", 23: "_sort_nodes_in_document_order",
-           24: "fetch_following", 25: "fetch_preceding"}
+           24: "fetch_following", 25: "fetch_preceding", 26: "location_path", 27: "document"}
 
 DOCS_TOP = ['<!--p--><r>a<x/>b</r><!--e-->', '<?pi x?><!--p--><r><a><!--c--></a>t</r>', '<r><x>1</x>2</r><!--e--><?pi y?>']
 DOCS = ['<r>a<x/>b<!--c-->d<y>e<z/>f</y>g</r>', '<r><x/><y/></r>', '<r>t</r>', '<r/>',
@@ -286,6 +286,11 @@ def real_frames(d, ambient, to_sort):
     e_nat = lambda k: [k]  # noqa: E731
     e_optnat = lambda k: [0] if k is None else [1, k]  # noqa: E731
     e_str = lambda s: [ord(c) for c in s]  # noqa: E731
+    def e_path(p):                                  # "/*/*[2]/*[1]" -> [2, 1]
+        assert p.startswith("/*")
+        return [int(x[2:-1]) for x in p[2:].split("/") if x]
+    with altered_default_filters():
+        has_document = any(getattr(o, "document", None) is not None for o in d.order)
     bf = get_traverser(from_left=True, depth_first=False, from_top=True)
     btt = get_traverser(from_left=True, depth_first=True, from_top=False)
     ttb = get_traverser(from_left=True, depth_first=True, from_top=True)
@@ -309,6 +314,10 @@ def real_frames(d, ambient, to_sort):
             out[(i, 14, 0)] = call(lambda: n.last_descendant, e_opt)
             out[(i, 16, 0)] = call(lambda: n.depth, e_nat)
             out[(i, 19, 0)] = call(lambda: n.full_text, e_str)
+            if isinstance(n, TagNode):
+                out[(i, 26, 0)] = call(lambda: n.location_path, e_path)
+            if has_document:
+                out[(i, 27, 0)] = call(lambda: n.document, lambda doc: [0] if doc is None else [1, idof(doc.root)])
             for fi, (_, F) in enumerate(PASSED):
                 out[(i, 1, fi)] = call(lambda: list(n.iterate_children(*F)), e_ids)
                 out[(i, 9, fi)] = call(lambda: n.fetch_following_sibling(*F), e_opt)
@@ -411,6 +420,8 @@ def classify(finding, case):
 def demanded(key, d, amb_members):
     """does the property state what this frame has to be (under a strict ambient filter)?"""
     node, routine, aux = key
+    if routine in (26, 27):
+        return False                          # C08's observers: correspondence only here (theorems in Props/C08Nav.v)
     if routine == 7:
         return node in amb_members            # the index of a node the ambient filter hides is not defined
     return True
@@ -562,6 +573,7 @@ def replay_open(f):
 
 def run(ctx, args):
     ctx.build("Props/C05.vo")
+    ctx.build("Props/C08Nav.vo")
     ctx.build("Conc/CNavDump.vo")
     if args.replay:
         with open(args.replay) as f:
@@ -586,7 +598,7 @@ def run(ctx, args):
     return ctx.finish(
         rule="trees: %d parsed documents + parentless comment / PI / text node / element + documents with prologue and epilogue nodes (root-level siblings) + trees reached by random histories of 1-8 public-API edits (append/prepend/"
              "insert/add_following/add_preceding/detach/replace/merge_text_nodes with strings, TextNodes, tags, comments, "
-             "PIs, tag() definitions, re-attached detached subtrees); on every node: 25 navigation routines under 6 ambient "
+             "PIs, tag() definitions, re-attached detached subtrees); on every node: 27 navigation routines under 6 ambient "
              "filters x 5 passed filters, all indices -(k+1)..k and 6 slices; correspondence against Conc/CNav.v for all, "
              "direct comparison with Tree/ANav.v under the ambient filters none/default/tags. evaluations = API results "
              "compared. Non-trivial = tree with more than one node; distinct by concrete structure (ids, slots, chains)."
